@@ -82,8 +82,10 @@ int main(int argc, char** argv) {
         mj::Value c = mj::parse(line); ++ncases;
         const std::string& k = c["k"].str();
         if (k == "str") str_case(idx, c);
-        else if (k == "op") { op_case<json>(idx, c, "json"); op_case<ojson>(idx, c, "ojson"); }
-        else if (k == "flat") { flat_case<json>(idx, c, "json"); flat_case<ojson>(idx, c, "ojson"); }
+        else if (k == "op") { op_case<json>(idx, c, "json"); op_case<ojson>(idx, c, "ojson");
+                              jc::parsed_mode() = true; op_case<json>(idx, c, "json-parsed"); op_case<ojson>(idx, c, "ojson-parsed"); jc::parsed_mode() = false; }   // documents as the parser builds them
+        else if (k == "flat") { flat_case<json>(idx, c, "json"); flat_case<ojson>(idx, c, "ojson");
+                                jc::parsed_mode() = true; flat_case<json>(idx, c, "json-parsed"); jc::parsed_mode() = false; }
     });
     mj::Value s = hz::rec("stat"); s.set("cases", (int64_t)ncases); s.set("checks", (int64_t)nchecks); hz::emit(s);
     return 0;
